@@ -34,22 +34,46 @@ theorem sasl_required_safe_real (cfg : Cfg) (base s : St) (hr : cfg.required = t
   have ha := (absInv_req cfg).dreach hd r hr h
   ⟨ha, ((absInv_sasl cfg).dreach hd r).2.2.2 ha⟩
 
-/-- `sasl_authenticated` is raised only by the handler of 903, and only when the FSM was in INIT_SASL /
-CONNECTED_SASL when the 903 arrived: a 903 outside a SASL exchange (unsolicited, before CAP LS, after the
-exchange ended …) is not honoured — for every state, configuration and message. -/
+/-- `sasl_authenticated` is raised only by the handler of 903, only when the FSM was in INIT_SASL /
+CONNECTED_SASL when the 903 arrived, and only after a complete response of the bot had gone out for the
+mechanism requested last (`sasl_response_sent`): a 903 outside a SASL exchange (unsolicited, before CAP LS,
+after the exchange ended …) or right after `AUTHENTICATE <mechanism>`, before any credentials were sent, is
+not honoured — for every state, configuration and message. -/
 theorem auth_only_in_exchange (cfg : Cfg) (s : St) (m : Msg) (h0 : s.saslAuth = false)
-    (h1 : (step cfg s m).st.saslAuth = true) : dispatch m = .n903 ∧ isSaslState s.fsm = true := by
+    (h1 : (step cfg s m).st.saslAuth = true) : dispatch m = .n903 ∧ isSaslState s.fsm = true ∧ s.saslSent = true := by
   have hm := ref_feedMsg (cfg := cfg) m s
   have hb : (α (feedMsg cfg m s).st).saslAuth = true := h1
   have ha : (α s).saslAuth = false := h0
   by_cases hp : handlerKinds (dispatch m) .authPerm = true
   · have hd : dispatch m = .n903 := by revert hp; cases dispatch m <;> simp [handlerKinds]
+    refine ⟨hd, ?_, ?_⟩
+    · have hk : handlerKinds (dispatch m) .startSasl = false := by rw [hd]; rfl
+      rcases auth_moves hk hm hb with h | ⟨h, _⟩
+      · rw [ha] at h; cases h
+      · exact h
+    · have hk : handlerKinds (dispatch m) .payload = false := by rw [hd]; rfl
+      rcases authSent_moves hk hm hb with h | h
+      · rw [ha] at h; cases h
+      · exact h
+  · have := noAuth_moves (by simpa using hp) hm hb
+    rw [ha] at this; cases this
+
+/-- … and `sasl_response_sent` itself is raised only while handling a server AUTHENTICATE inside a SASL
+state (by `sendSaslString`, after the last line of the answer was queued: `C08.sasl_answer_complete`); a new
+mechanism request and a reset clear it. -/
+theorem response_only_by_authenticate (cfg : Cfg) (s : St) (m : Msg) (h0 : s.saslSent = false)
+    (h1 : (step cfg s m).st.saslSent = true) : dispatch m = .authenticate ∧ isSaslState s.fsm = true := by
+  have hm := ref_feedMsg (cfg := cfg) m s
+  have hb : (α (feedMsg cfg m s).st).sent = true := h1
+  have ha : (α s).sent = false := h0
+  by_cases hp : handlerKinds (dispatch m) .payload = true
+  · have hd : dispatch m = .authenticate := by revert hp; cases dispatch m <;> simp [handlerKinds]
     refine ⟨hd, ?_⟩
     have hk : handlerKinds (dispatch m) .startSasl = false := by rw [hd]; rfl
-    rcases auth_moves hk hm hb with h | ⟨h, _⟩
+    rcases sentOrigin_moves hk hm hb with h | ⟨h, _⟩
     · rw [ha] at h; cases h
     · exact h
-  · have := noAuth_moves (by simpa using hp) hm hb
+  · have := sent_moves (by simpa using hp) hm hb
     rw [ha] at this; cases this
 
 /-- the configuration of the C08 examples with `sasl.required` -/
@@ -63,6 +87,9 @@ theorem exR4_reach : Reach exReq {} exR4 :=
   .op (.msg ex903) (.op (.msg exAuth) (.op (.msg exAck) (.op (.msg exLs) .start)))
 example : exReq.required = true ∧ pastNegotiation exR4.fsm = true ∧ exR4.saslAuth = true := by decide
 example : exR3.saslAuth = false ∧ (step exReq exR3 ex903).st.saslAuth = true := by decide
+/-- a 903 right after `AUTHENTICATE PLAIN`, before the credentials went out, changes nothing -/
+example : exR2.fsm = .INIT_SASL ∧ exR2.saslSent = false ∧ (step exReq exR2 ex903).st.saslAuth = false ∧
+    (step exReq exR2 ex903).fast = [] ∧ exR3.saslSent = true := by decide
 /-- an unsolicited 903 right after connecting changes nothing -/
 example : (step exReq exR0 ex903).st.saslAuth = false ∧ (step exReq exR0 ex903).exc = some "ValueError" := by decide
 
@@ -130,6 +157,57 @@ theorem sts_store_only_secure (cfg : Cfg) (s : St) (m : Msg) (hs : secureConn cf
     (hk : (feedMsg cfg m s).st.drv.sock = s.drv.sock) :
     ∀ k p, dictGet (feedMsg cfg m s).st.db.policies k = some p → dictGet s.db.policies k = some p :=
   (noNewPolicy_moves (ref_feedMsg (cfg := cfg) m s) (by simpa [aSecure, secureConn, α] using hs) hk).1
+
+/-- The same without the side condition: the handlers that can store a policy (CAP LS, CAP NEW) never open
+a socket, and the one that opens a socket (ERROR) never stores a policy. -/
+theorem sts_store_only_secure_msg (cfg : Cfg) (s : St) (m : Msg) (hs : secureConn cfg s = false) :
+    ∀ k p, dictGet (feedMsg cfg m s).st.db.policies k = some p → dictGet s.db.policies k = some p := by
+  have hm := ref_feedMsg (cfg := cfg) m s
+  rcases handler_perms (dispatch m) with h | h
+  · exact noStore_moves h hm
+  · exact (noNewPolicy_moves hm (by simpa [aSecure, secureConn, α] using hs) (forced_const_moves h hm).2).1
+
+/-- History level, one whole `SocketDriver.run()`: while the lines of a recv() are fed on a connection the bot
+does not consider verified TLS, no STS policy is added or changed — whatever the lines are, including a line
+that makes the driver reconnect (the rest of the chunk is then dropped). -/
+theorem sts_store_only_secure_lines (cfg : Cfg) (lines : List Msg) (s : St) (hs : secureConn cfg s = false) :
+    ∀ k p, dictGet (feedLines cfg lines s).db.policies k = some p → dictGet s.db.policies k = some p := by
+  induction lines generalizing s with
+  | nil => exact fun _ _ h => h
+  | cons m ms ih =>
+    unfold feedLines
+    simp only
+    have h1 := sts_store_only_secure_msg cfg s m hs
+    split
+    · exact h1
+    · rename_i hcont
+      have hsock : (feedMsg cfg m s).st.drv.sock = s.drv.sock := by
+        by_cases hq : (feedMsg cfg m s).st.drv.sock = s.drv.sock
+        · exact hq
+        · exact absurd (.inl hq) hcont
+      have hf := (noNewPolicy_moves (ref_feedMsg (cfg := cfg) m s) (by simpa [aSecure, secureConn, α] using hs) hsock).2
+      have hs' : secureConn cfg (feedMsg cfg m s).st = false := by
+        have hf' : (feedMsg cfg m s).st.drv.current.forced = s.drv.current.forced := hf
+        simpa [secureConn, hf'] using hs
+      exact fun k p hg => h1 k p (ih _ hs' k p hg)
+
+/-- … and `_sendIfMsgs` does not touch the store: a whole `run()` that does not start with a due reconnect
+adds or changes no policy on an unverified connection. -/
+theorem sts_store_only_secure_run (cfg : Cfg) (now : Nat) (lines : List Msg) (s : St)
+    (hs : secureConn cfg s = false) :
+    ∀ k p, dictGet (drvRun cfg now false lines s).db.policies k = some p → dictGet s.db.policies k = some p := by
+  have hflush : ∀ t : St, (flush t).db = t.db ∧ (flush t).drv = t.drv := by
+    intro t; unfold flush; split <;> exact ⟨rfl, rfl⟩
+  unfold drvRun drvDue
+  simp only [Bool.and_false, Bool.false_eq_true, if_false]
+  split
+  · rw [(hflush _).1]
+    intro k p hg
+    have hs1 : secureConn cfg (flush { s with now := now, ev := [], wire := [] }) = false := by
+      simpa [secureConn, (hflush _).2] using hs
+    have := sts_store_only_secure_lines cfg lines _ hs1 k p hg
+    rw [(hflush _).1] at this; exact this
+  · exact fun _ _ h => h
 
 /-- With the recording stub driver no socket is ever opened by a handler: the statement holds outright. -/
 theorem sts_store_only_secure_stub (cfg : Cfg) (s : St) (m : Msg) (hd : cfg.realDriver = false)
